@@ -59,6 +59,14 @@ CHECKS = {
               "SIGKILLed child processes; each crash directory is described from bytes, opened, and judged by TLC."),
         technique="TLA+ crash sub-step model checked by TLC + enumeration of crash/torn-write directories judged by the specification",
         design="4/C11"),
+    "C10": dict(
+        text=("A lock-step TLA+ model (IH5Stub.tla) applies every existence-based update both directly and over StubOf(record) for all "
+              "bounded build histories and proves the two patch containers identical and applicable to the real containers; real "
+              "IH5MFRecord histories are validated by TLC: manifest vs user block vs skeleton after every commit, manifest_exts "
+              "inheritance, stub skeleton/no data/not mergeable, same outcomes in lock step, and the stub's patch appended to the real "
+              "files shows the directly patched tree."),
+        technique="TLA+ lock-step stub model checked by TLC + trace validation of manifest/stub histories on IH5MFRecord",
+        design="4/C10"),
 }
 
 NOT_YET = "check not built yet (work in progress)"
